@@ -175,7 +175,12 @@ class ISE(InvalidStateError):
     """User code failing with (a subclass of) the very exception type the library tolerates from its own set_result() races."""
 
 
-EXC = {"E0": E0, "E1": E1, "E2": E2, "E3": E3, "Fault": Fault, "EF": EF, "EB": EB, "CE": CE, "EQ": EQ, "ISE": ISE}
+class SI(StopIteration):
+    """User code failing with StopIteration (next() on an exhausted iterator): an ordinary exception for the caller, but one that
+    iterator plumbing (map(), generators) silently eats if the library routes the call through it."""
+
+
+EXC = {"E0": E0, "E1": E1, "E2": E2, "E3": E3, "Fault": Fault, "EF": EF, "EB": EB, "CE": CE, "EQ": EQ, "ISE": ISE, "SI": SI}
 
 
 def verif_orig_raise_site(e):
